@@ -54,6 +54,11 @@ def boundary_programs():
         add(f"LONG1[{v.bit_length()}b]", ("LONG1", v))
     for v in (0, 5, -(2**40), 2**2100):
         add(f"LONG4[{v.bit_length()}b]", ("LONG4", v))
+    # a PROTO header that understates the opcodes that follow (the stock unpicklers do not care)
+    for ver in (0, 1, 2, 3):
+        add(f"PROTO{ver}+SHORT_BINUNICODE+MEMOIZE", ("PROTO", ver), ("SHORT_BINUNICODE", "abc"), "MEMOIZE")
+        add(f"PROTO{ver}+EMPTY_SET", ("PROTO", ver), "EMPTY_SET")
+        add(f"PROTO{ver}+BINBYTES", ("PROTO", ver), ("BINBYTES", b"xy"))
     add("INT", ("INT", 7))
     add("INT-neg", ("INT", -12345678901234567890))
     add("INT-true", ("INT", True))
